@@ -391,18 +391,18 @@ PROPS['C28'] = {
     'level': 'Static convention analysis of mpyc.secgroups -- exactly the recombination trick the single-party suite cannot exercise.',
 }
 PROPS['C37'] = {
-    'rules': [R(sg.rule_TC1), R(sg.rule_SG1), R(sg.rule_SG2), R(pc.rule_PC1), R(pa.rule_SS1), R(pa.rule_NL1), R(ss.rule_SS3), R(ss.rule_SS7), R(ss.rule_PR1), R(fx.rule_FX1), R(fx.rule_FX3), R(op.rule_OP6), R(sn.rule_SN1), R(sn.rule_SN2), R(sn.rule_SN3)],
-    'floors': {'TC1': 10, 'SG1': 10, 'SG2': 1, 'PC1': 40, 'SS1': 60, 'NL1': 25, 'SS3': 9, 'SS7': 8, 'PR1': 12, 'FX1': 60, 'FX3': 15, 'OP6': 14, 'SN1': 6, 'SN2': 2, 'SN3': 3},
+    'rules': [R(sg.rule_TC1), R(sg.rule_SG1), R(sg.rule_SG2), R(pc.rule_PC1), R(pa.rule_SS1), R(pa.rule_NL1), R(ss.rule_SS3), R(ss.rule_SS7), R(ss.rule_PR1), R(fx.rule_FX1), R(fx.rule_FX3), R(op.rule_OP6), R(op.rule_OP7), R(sn.rule_SN1), R(sn.rule_SN2), R(sn.rule_SN3)],
+    'floors': {'OP7': 12, 'TC1': 10, 'SG1': 10, 'SG2': 1, 'PC1': 40, 'SS1': 60, 'NL1': 25, 'SS3': 9, 'SS7': 8, 'PR1': 12, 'FX1': 60, 'FX3': 15, 'OP6': 14, 'SN1': 5, 'SN2': 2, 'SN3': 3},
     'explanation': 'Sibling and plumbing clauses for code the suite cannot even import (no numpy): array coroutines agree with their scalar siblings on '
                    'mask bounds (as linear forms), opening thresholds, option/field-size case splits, PRSS calls and head-room (SG1); a type that is an '
                    'array type is never tested against a scalar secure class (TC1); integral= is passed to polymorphic constructors only under a '
                    'fixed-point guard (SG2); a NumPy ufunc applied to (plain, secure) operands is delegated in reflected form -- mirrored comparison or '
-                   '__r<op>__ method, exchanged operands only for symmetric operators (OP6); np_sort applies the comparator schedule of _sort, exchanges pairs in '
+                   '__r<op>__ method, exchanged operands only for symmetric operators (OP6); a scalar operator method establishes what its operand is before handing it to a runtime protocol, so that scalar-with-array broadcasts are answered by the array\'s own method (OP7); np_sort applies the comparator schedule of _sort, exchanges pairs in '
                    'ascending orientation and works on a copy (SN1-SN3); the np_* coroutines satisfy the pc, degree, linearity and flag rules (PC1, SS1, NL1, FX1, FX3); array '
                    'sharing, recombination and PRSS agree with the list versions (SS3, SS7, PR1).',
     'assumptions': ['numpy semantics of the array operations (broadcasting, matmul) are as documented'],
-    'level': 'Static sibling-agreement and typestate analysis of the np_* half of the runtime. Found three genuine defects (np_roll without pc, '
-             'integral= for integer arrays, np_trunc head-room), all repaired.',
+    'level': 'Static sibling-agreement and typestate analysis of the np_* half of the runtime. Found five genuine defects (np_roll without pc, '
+             'integral= for integer arrays, np_trunc head-room, reflected ufunc operands, scalar-vs-array comparisons), all repaired.',
 }
 PROPS['C39'] = {
     'rules': [R(cf.rule_CF1), R(cf.rule_CF2)],
@@ -438,7 +438,7 @@ PROPS['C06'] = {
 
 PROPS['C29'] = {
     'rules': [R(sn.rule_SN1), R(sn.rule_SN2), R(sn.rule_SN3), R(sn.rule_SN4), R(sn.rule_SN5), R(sn.rule_SN6)],
-    'floors': {'SN1': 6, 'SN2': 2, 'SN3': 3, 'SN4': 10, 'SN5': 8, 'SN6': 3},
+    'floors': {'SN1': 5, 'SN2': 2, 'SN3': 3, 'SN4': 10, 'SN5': 8, 'SN6': 3},
     'explanation': 'Structural clauses of sorting and selection. (SN2) every compare-exchange of _sort / np_sort writes exactly the two positions it read, the '
                    'smaller element to the lower index -- otherwise the output is not a permutation of the input, or not ascending; (SN1) the list and the '
                    'array implementation apply one and the same comparator schedule (initialisation, both loops, index predicate i & p == r over '
